@@ -185,8 +185,13 @@ func TestExamplePrograms(t *testing.T) {
 	s.Rule("enumeration of the single-file programs under waroot/examples, compiled by the repository's compiler (worker op build = api.BuildFile), run on vendored wazero and on V8 under a recording syscall_js host (every import call logged as name + raw argument bits + bytes of the printed string; how the run ended); non-trivial = programs with >= 5 host calls whose logs were compared")
 	sh, n := core.Shard()
 	progs := om.ExamplePrograms()
-	for i, p := range progs {
-		if i%n != sh {
+	k := 0
+	for _, p := range progs {
+		if !core.Thorough() && !om.QuickProgram(p.Name) {
+			continue
+		}
+		k++
+		if k%n != sh {
 			continue
 		}
 		c := s.NewCase(t)
